@@ -3,12 +3,15 @@ C04 — Cache transparency: a cache never changes what an evaluation returns, fo
 Theorems over LiquerModel/Eval.lean and LiquerModel/Ref.lean; helper lemmas in LiquerProofs/Lemmas/Eval*.lean.
 `Sound`, `Closed`, `CanonOK`: see the header of Props/C01.lean.  The world `World` is the KV specification
 of a cache instantiated at evaluator states (that every provided cache refines it is C13).
+The text hypothesis `CanonOK` is discharged by C02's round trip for every class of `wfTop` queries: the `_wf`
+corollaries (last section).
 -/
 import LiquerModel.Ref
 import LiquerProofs.Inst.Vocab
 import LiquerProofs.Lemmas.EvalExact
 import LiquerProofs.Lemmas.EvalExample
 import LiquerProofs.Lemmas.EvalFrame
+import LiquerProofs.Lemmas.EvalCanon
 
 namespace Liquer.C04
 
@@ -113,6 +116,70 @@ example :
     w1.get (s "one") ≠ none := by
   decide +kernel
 
+/-! ### the canonical-text hypothesis discharged: closed classes of well-formed queries (C02's round trip) -/
+
+/-- every well-formed query of the class means what its canonical text means (Lemmas/EvalCanon.lean) -/
+theorem canon_of_wf {env : Env} (hd : DecOK env.dec) {C : Query → Prop}
+    (hwf : ∀ q, C q → wfTop Gen.escapeTable q = true) : ∀ q, C q → CanonOK env q :=
+  fun q hq => CanonOK.of_same (Canon.canonSame_of_wf env hd q (hwf q hq))
+
+/-- `transparent` for a closed class of well-formed queries -/
+theorem transparent_wf {env : Env} (hd : DecOK env.dec) {C : Query → Prop} {T : Str → Prop} (hC : Closed env C T)
+    (hwf : ∀ q, C q → wfTop Gen.escapeTable q = true) (n : Nat) (w : World) (q : Query) (raw : Str) (extra : Extra)
+    (input : Option Val) (uc : Bool) (hS : Sound env w) (hCq : C q) (huc : uc = true → input = none)
+    (he : (evalQ env n w q raw extra input uc).2 ≠ .unmodelled) :
+    ∃ m, (refQ env m q raw extra input).1 ≠ .unmodelled ∧
+      (evalQ env n w q raw extra input uc).2.obs = (refQ env m q raw extra input).1.obs :=
+  transparent hC (canon_of_wf hd hwf) n w q raw extra input uc hS hCq huc he
+
+/-- `transparent_two_worlds` for a closed class of well-formed queries -/
+theorem transparent_two_worlds_wf {env : Env} (hd : DecOK env.dec) {C : Query → Prop} {T : Str → Prop}
+    (hC : Closed env C T) (hwf : ∀ q, C q → wfTop Gen.escapeTable q = true) (n n' : Nat) (w w' : World) (q : Query)
+    (raw : Str) (extra : Extra) (input : Option Val) (uc : Bool) (hS : Sound env w) (hS' : Sound env w') (hCq : C q)
+    (huc : uc = true → input = none)
+    (he : (evalQ env n w q raw extra input uc).2 ≠ .unmodelled)
+    (he' : (evalQ env n' w' q raw extra input uc).2 ≠ .unmodelled) :
+    (evalQ env n w q raw extra input uc).2.obs = (evalQ env n' w' q raw extra input uc).2.obs :=
+  transparent_two_worlds hC (canon_of_wf hd hwf) n n' w w' q raw extra input uc hS hS' hCq huc he he'
+
+/-- `cache_vs_nocache` for a closed class of well-formed queries -/
+theorem cache_vs_nocache_wf {env : Env} (hd : DecOK env.dec) {C : Query → Prop} {T : Str → Prop}
+    (hC : Closed env C T) (hwf : ∀ q, C q → wfTop Gen.escapeTable q = true) (n n' : Nat) (w w0 : World) (q : Query)
+    (raw : Str) (extra : Extra) (input : Option Val) (uc : Bool) (hS : Sound env w) (hN : w0.NoCache) (hCq : C q)
+    (huc : uc = true → input = none)
+    (he : (evalQ env n w q raw extra input uc).2 ≠ .unmodelled)
+    (he' : (evalQ env n' w0 q raw extra input uc).2 ≠ .unmodelled) :
+    (evalQ env n w q raw extra input uc).2.obs = (evalQ env n' w0 q raw extra input uc).2.obs :=
+  cache_vs_nocache hC (canon_of_wf hd hwf) n n' w w0 q raw extra input uc hS hN hCq huc he he'
+
+/-- `histories` for a closed class of well-formed queries -/
+theorem histories_wf {env : Env} (hd : DecOK env.dec) {C : Query → Prop} {T : Str → Prop} (hC : Closed env C T)
+    (hwf : ∀ q, C q → wfTop Gen.escapeTable q = true) (fuel : Nat) (h : List HistOp) (w : World) (hS : Sound env w)
+    (hok : ∀ op ∈ h, op.ok C T) : Sound env (runHist env fuel w h) :=
+  histories hC (canon_of_wf hd hwf) fuel h w hS hok
+
+/-- `transparent_after_history` for a closed class of well-formed queries -/
+theorem transparent_after_history_wf {env : Env} (hd : DecOK env.dec) {C : Query → Prop} {T : Str → Prop}
+    (hC : Closed env C T) (hwf : ∀ q, C q → wfTop Gen.escapeTable q = true) (fuel n m : Nat) (h : List HistOp)
+    (hok : ∀ op ∈ h, op.ok C T) (q : Query) (raw : Str) (hCq : C q)
+    (he : (evalQ env n (runHist env fuel {} h) q raw .none none true).2 ≠ .unmodelled)
+    (hr : (refQ env m q raw .none none).1 ≠ .unmodelled) :
+    (evalQ env n (runHist env fuel {} h) q raw .none none true).2.obs = (refQ env m q raw .none none).1.obs :=
+  transparent_after_history hC (canon_of_wf hd hwf) fuel n m h hok q raw hCq he hr
+
+-- non-vacuity of the `_wf` hypotheses: the decoder of the example environment is a decoder and the example family
+-- (closed, contains a link argument) consists of well-formed queries; with them `histories_wf` applies to `hist0`
+open Ex in
+example : DecOK env0.dec ∧ Closed env0 C0 T0 ∧ (∀ q, C0 q → wfTop Gen.escapeTable q = true) ∧
+    Sound env0 (runHist env0 9 {} hist0) := by
+  have hwf : ∀ q, C0 q → wfTop Gen.escapeTable q = true := by
+    intro q hq; rcases hq with rfl | rfl | rfl | rfl <;> decide +kernel
+  have hok : ∀ op ∈ hist0, op.ok C0 T0 := by
+    intro op hm
+    simp only [hist0, List.mem_cons, List.not_mem_nil, or_false] at hm
+    rcases hm with rfl | rfl | rfl | rfl | rfl | rfl | rfl <;> simp [HistOp.ok, C0]
+  exact ⟨decUtf8_ok, closed0, hwf, histories_wf decUtf8_ok closed0 hwf 9 hist0 {} (Sound.empty _) hok⟩
+
 end Liquer.C04
 
--- OBLIGATIONS: Liquer.C04.inst_registry Liquer.C04.sim_obs Liquer.C04.transparent Liquer.C04.transparent_two_worlds Liquer.C04.cache_vs_nocache Liquer.C04.empty_sound Liquer.C04.clean_sound Liquer.C04.remove_sound Liquer.C04.nocache_sound Liquer.C04.histories Liquer.C04.transparent_after_history Liquer.C04.frame_evalQ
+-- OBLIGATIONS: Liquer.C04.inst_registry Liquer.C04.sim_obs Liquer.C04.transparent Liquer.C04.transparent_two_worlds Liquer.C04.cache_vs_nocache Liquer.C04.empty_sound Liquer.C04.clean_sound Liquer.C04.remove_sound Liquer.C04.nocache_sound Liquer.C04.histories Liquer.C04.transparent_after_history Liquer.C04.frame_evalQ Liquer.C04.canon_of_wf Liquer.C04.transparent_wf Liquer.C04.transparent_two_worlds_wf Liquer.C04.cache_vs_nocache_wf Liquer.C04.histories_wf Liquer.C04.transparent_after_history_wf
